@@ -196,4 +196,30 @@ def extract(
         metadata_props=graph_like.metadata_props,
     )
 
-    return graph_view.clone()
+    extracted = graph_view.clone()
+
+    # A boundary input can also be an output of an extracted node (a sibling output of a value
+    # that is needed). The clone then produces it a second time. The boundary takes precedence:
+    # consumers read the graph input, and the recomputed output gets a fresh name so that the
+    # extracted graph stays in single static assignment form.
+    node_positions = {node: i for i, node in enumerate(extracted_nodes)}
+    new_nodes = tuple(extracted)
+    for original, new_input in zip(input_vals, extracted.inputs):
+        producer = original.producer()
+        if producer is None or producer not in node_positions:
+            continue
+        index = original.index()
+        assert index is not None
+        recomputed = new_nodes[node_positions[producer]].outputs[index]
+        if recomputed is new_input:
+            continue
+        recomputed.replace_all_uses_with(new_input, replace_graph_outputs=True)
+        if recomputed.name:
+            existing = set(ir.convenience.create_value_mapping(extracted))
+            fresh = base = f"{recomputed.name}_recomputed"
+            count = 0
+            while fresh in existing:
+                count += 1
+                fresh = f"{base}_{count}"
+            recomputed.name = fresh
+    return extracted
